@@ -216,6 +216,25 @@ def execute(program, ctx, mode):
         def __len__(self):
             return 0
 
+    class Proxy:
+        """a transparent proxy (as zope.proxy / zope.security put around interfaces): hashes and compares like what it wraps"""
+        __slots__ = ('_o',)
+
+        def __init__(self, o):
+            object.__setattr__(self, '_o', o)
+
+        def __hash__(self):
+            return hash(object.__getattribute__(self, '_o'))
+
+        def __eq__(self, other):
+            return object.__getattribute__(self, '_o') == other
+
+        def __ne__(self, other):
+            return object.__getattribute__(self, '_o') != other
+
+        def __getattribute__(self, name):          # everything is forwarded, also __name__ / __module__ / __class__
+            return getattr(object.__getattribute__(self, '_o'), name)
+
     class FancyIC(InterfaceClass):
         def __bool__(self):
             return False
@@ -394,6 +413,10 @@ def execute(program, ctx, mode):
                         ctx.violation('C02', 'extends', 'C02|extends|%s->%s|%s' % (
                             kind[s], kind[t], 'false-negative' if w_ext else 'false-positive'),
                             {'S': s, 'T': t, 'want': w_ext, 'bases': dict(bases_of)})
+                    # (only interfaces compare by name, so only they can be found through a proxy that merely forwards)
+                    if odd_world and (kind[t] == 'I' or t == 'Interface') and bool(S.isOrExtends(Proxy(T))) != w_ioe:
+                        ctx.violation('C02', 'isOrExtends-proxied', 'C02|isOrExtends|argument-behind-a-transparent-proxy|%s' % (
+                            'false-negative' if w_ioe else 'false-positive'), {'S': s, 'T': t})
                     if bool(S.extends(T, strict=False)) != w_ioe:
                         ctx.violation('C02', 'extends-nonstrict', 'C02|extends(strict=False)|%s->%s' % (kind[s], kind[t]),
                                       {'S': s, 'T': t, 'want': w_ioe})
